@@ -37,7 +37,7 @@ open PV PV.C03Sums PV.C01Geom
 theorem declared_lj_constants :
     Generated.ljShells = 3 ∧ Generated.ljPeriodicWeight = .lit 1 2 ∧
     Generated.ljInitSize = .mul (.mul (.lit 2 1) (.var "enclosing_radius")) (.var "num_shapes") ∧
-    Generated.stateUnrecognised = [] := by
+    Generated.ljUnrecognised = [] := by
   decide
 
 /-- energy between the shape placed at `t` and the shape placed at `u` -/
